@@ -142,7 +142,7 @@ class Ctx:
         self.distinct = set()
         self.samples = []
         self.tags = collections.Counter()
-        self.ops = []            # (op dict, expected answer, case input, label)
+        self.ops = []            # (op dict, expected answer, case input, label, normaliser of the model's answer)
         self.failures = []       # property failures on the real code
         self.known_hits = collections.OrderedDict()
         self.skipped = collections.Counter()
@@ -161,9 +161,10 @@ class Ctx:
         if len(self.samples) < 3 and nontrivial:
             self.samples.append(inp)
 
-    def op(self, op, expected, label=None):
-        """queue a correspondence op: the model must answer `expected` (the implementation's canonical output)"""
-        self.ops.append((op, expected, self.cur, label or op.get("op")))
+    def op(self, op, expected, label=None, norm=None):
+        """queue a correspondence op: the model must answer `expected` (the implementation's canonical output);
+        `norm` canonicalises the model's answer first (e.g. row order)"""
+        self.ops.append((op, expected, self.cur, label or op.get("op"), norm))
 
     def fail(self, kind, detail, known=None):
         """a property failure observed on the real code (known = id of a listed finding, else None)"""
@@ -230,12 +231,21 @@ def run_check(pid, module, argv):
             rp = json.load(open(a.replay))
             module.do_case(ctx, rp["input"])
         else:
+            # corpus first: minimised past disagreements and witnesses of repaired defects
+            cdir = os.path.join(VERIF, "corpus", pid)
+            if os.path.isdir(cdir):
+                for fn in sorted(os.listdir(cdir)):
+                    if fn.endswith(".json"):
+                        module.do_case(ctx, json.load(open(os.path.join(cdir, fn)))["input"])
+                        ctx.tags["corpus"] += 1
             module.run(ctx)
         if ok:
-            answers = run_driver([o for (o, _, _, _) in ctx.ops])
-            for (o, exp, inp, label), ans in zip(ctx.ops, answers):
+            answers = run_driver([x[0] for x in ctx.ops])
+            for (o, exp, inp, label, norm), ans in zip(ctx.ops, answers):
                 if "err" in ans:
                     raise LeanError(f"driver rejected op {label}: {ans} :: {canon(o)[:500]}")
+                if norm is not None:
+                    ans = norm(ans)
                 if canon(ans) != canon(exp):
                     disagreements.append({"op": label, "input": inp, "request": o, "impl_output": exp, "model_output": ans})
     except LeanError as e:
@@ -297,7 +307,7 @@ def run_check(pid, module, argv):
         "rule": getattr(module, "RULE", ""),
         "samples": ctx.samples if ctx.samples else [ctx.cur],
         "correspondence_ops": len(ctx.ops), "disagreements": len(disagreements),
-        "ops_by_kind": dict(collections.Counter(l for (_, _, _, l) in ctx.ops)),
+        "ops_by_kind": dict(collections.Counter(x[3] for x in ctx.ops)),
         "tags": dict(ctx.tags), "skipped": dict(ctx.skipped),
         "known_findings_hit": list(ctx.known_hits.keys()),
         "search_extra_cases": search_evals, "exhaustive": bool(ctx.exhaustive),
